@@ -166,6 +166,29 @@ def gen_ext(rng, tier, mk):
     return cases
 
 
+def gen_huge(rng, tier, mk):
+    """wave 4 — huge operands, once per run (not per round): more than 2**22 candidate (search row, source row) pairs inside the row
+    helpers (both row lists longer than 2048), 2-way and 3-way shapes with short modes (the Coq side compares unary naturals: cost grows with the index values).  mk gives identity /
+    reversed / one random stored order per sparse operand; no memory-layout re-runs."""
+    cases = []
+    reqs = [([48, 48], "extract"), ([13, 14, 13], "innerprod")]
+    if tier == "thorough":
+        reqs += [([13, 14, 13], "extract"), ([48, 48], "mask"), ([13, 14, 13], "mask"), ([48, 48], "getitem")]
+    for shape, op in reqs:
+        n = math.prod(shape)
+        a = sp_args(rng, shape, n - 150)
+        if op == "innerprod":
+            b = sp_args(rng, shape, n - 150)
+            cases.append(mk(op, dict(a, rk="sparse", bsubs=b["subs"], bvals=b["vals"])))
+        elif op == "mask":
+            w = sp_args(rng, shape, n - 150)
+            cases.append(mk(op, dict(a, rk="sparse", bsubs=w["subs"], bvals=[1] * len(w["subs"]))))
+        else:
+            qs = [list(q) for q in rng.sample(cells_of(shape), n - 200)]
+            cases.append(mk(op, dict(a, q=qs)))
+    return cases
+
+
 def gen_round(rng, tier, mk):
     big = tier == "thorough"
     rep = 4 if big else 1
@@ -523,6 +546,18 @@ def gen_stm_hist(rng, shape):
 # ---------------------------------------------------------------------------------------------
 # generators
 # ---------------------------------------------------------------------------------------------
+def perms_of(n, rng):
+    ident = list(range(n))
+    if n <= 4:
+        return [list(p) for p in itertools.permutations(ident)]
+    out = [ident, ident[::-1]]
+    for _ in range(3):
+        p = ident[:]
+        rng.shuffle(p)
+        out.append(p)
+    return out
+
+
 def gen_generators(rng, tier):
     big = tier == "thorough"
     out = []
@@ -571,8 +606,12 @@ def gen_generators(rng, tier):
         if m >= 2 and rng.random() < 0.5:
             rows[1] = list(rows[0])
             rv[1] = -rv[0] if rng.random() < 0.5 else rv[1]
-        g(g="stm_ctor", req=shape, rd=rd, cd=cd, rows=rows, rv=rv)
-        g(g="stm_from_array", req=shape, rd=rd, cd=cd, rows=rows, rv=rv, dense=rng.random() < 0.5)
+        # wave 4: the same triples handed over in other orders (all m! for m <= 4, identity / reversed / 3 random beyond): the
+        # constructor must return the same object (C06_stm_ctor_indep, C06_stm_from_coo_indep)
+        perms = perms_of(m, rng)
+        g(g="stm_ctor", req=shape, rd=rd, cd=cd, rows=rows, rv=rv, perms=perms)
+        g(g="stm_from_array", req=shape, rd=rd, cd=cd, rows=rows, rv=rv, dense=rng.random() < 0.4, perms=perms,
+          fmt=rng.choice(("coo", "coo", "csr", "csc")))             # scipy storage class of the matrix handed over (coo keeps repeated triples)
     return out
 
 
@@ -871,6 +910,23 @@ def run_gen(np, ttb, a):
             cnt[0] += 1
             return np.arange(1, shp[0] + 1, dtype=float).reshape(shp) * (-1) ** cnt[0]
         return obs_sparse(np, ttb, ttb.sptensor.from_function(ones if a["fn"] == "ones" else ints, tuple(a["req"]), a["nonzeros"]))
+    if g in ("stm_ctor", "stm_from_array") and "perms" in a and "perm_run" not in a:
+        first = None
+        alts = []
+        for p in a["perms"]:
+            b = dict(a, rows=[a["rows"][k] for k in p], rv=[a["rv"][k] for k in p], perm_run=True)
+            try:
+                o = run_gen(np, ttb, b)
+            except Exception as ex:
+                o = {"exc": type(ex).__name__, "msg": str(ex)[:160]}
+            if first is None:
+                first = o
+            else:
+                alts.append(o)
+        if "exc" in first:
+            return first
+        first["alts"] = alts
+        return first
     rda, cda = np.array(a["rd"], dtype=int), np.array(a["cd"], dtype=int)
     m = len(a["rows"])
     rows = np.array(a["rows"], dtype=int).reshape((m, 2))
@@ -888,6 +944,10 @@ def run_gen(np, ttb, a):
         else:
             from scipy import sparse as sps
             A = sps.coo_matrix((vals.ravel().copy(), (rows[:, 0].copy(), rows[:, 1].copy())), shape=tuple(ms))
+            if a.get("fmt") == "csr":
+                A = sps.csr_matrix(A)
+            elif a.get("fmt") == "csc":
+                A = sps.csc_matrix(A)
         return obs_stm(np, ttb, ttb.sptenmat.from_array(A, rda, cda, tuple(a["req"])))
     raise ValueError(g)
 
@@ -958,6 +1018,13 @@ def gsp_obs(o):
     return tgen.gsparse(o["shape"], o["subs"], o["vals"])
 
 
+def gsp_sorted(o):
+    """the observation with its (subscript, value) pairs sorted by subscript — a joint permutation of the stored entries; Coq
+    (all_same_sorted) checks that the rows ascend strictly, so nothing is taken on trust from this sort"""
+    es = sorted(zip([list(s) for s in o["subs"]], o["vals"]), key=lambda e: e[0])
+    return tgen.gsparse(o["shape"], [e[0] for e in es], [e[1] for e in es])
+
+
 def gsame_sparse(obs):
     fn = "all_same_sparse_e" if math.prod(obs[0]["shape"]) > BIG_CELLS else "all_same_sparse"
     return f"{fn} {glist([gsp_obs(o) for o in obs])}"
@@ -986,9 +1053,29 @@ def check_gen(a, o):
         ms = stm_mshape(a["req"], a["rd"], a["cd"])
         if o["shape"] != ms:
             return "false"
-        return (f"sp_denotes {gsp_obs(o)} (full 0%Z (from_aggregator zisz (vsum 0%Z Z.add) {gnlist(ms)} {gnmat(a['rows'])} {gzlist(a['rv'])}))"
-                f" && wf_spb zisz {gsp_obs(o['back'])}"
-                f" && sp_perm_eqb (sptenmat_to_sptensor (mkSTM {gnmat(o['subs'])} {gzlist(o['vals'])} {gnlist(a['rd'])} {gnlist(a['cd'])} {gnlist(a['req'])})) {gsp_obs(o['back'])}")
+        e = (f"sp_denotes {gsp_obs(o)} (full 0%Z (from_aggregator zisz (vsum 0%Z Z.add) {gnlist(ms)} {gnmat(a['rows'])} {gzlist(a['rv'])}))"
+             f" && wf_spb zisz {gsp_obs(o['back'])}"
+             f" && sp_perm_eqb (sptenmat_to_sptensor (mkSTM {gnmat(o['subs'])} {gzlist(o['vals'])} {gnlist(a['rd'])} {gnlist(a['cd'])} {gnlist(a['req'])})) {gsp_obs(o['back'])}")
+        # wave 4: pyttb holds exactly the triples (up to stored order) that C01's transliteration of the constructor returns
+        # (Model/C01Unique.v stm_ctor, Model/C01Coo.v from_array_coo / from_array_dense: the functions C06_stm_ctor, C06_stm_ctor_indep,
+        # C06_stm_from_coo, C06_stm_from_coo_indep are about), for the triples as given and for every re-ordering of them
+        rdcd = f"(Some {gnlist(a['rd'])}) (Some {gnlist(a['cd'])}) {gnlist(a['req'])}"
+        if g == "stm_ctor":
+            some = "None None" if not a["rows"] else f"(Some {gnmat(a['rows'])}) (Some {gzlist(a['rv'])})"
+            model = f"(stm_ctor Z.add zisz {some} {rdcd})"
+        elif a["dense"]:
+            A = {}
+            for (r_, c_), v in zip(a["rows"], a["rv"]):
+                A[(r_, c_)] = A.get((r_, c_), 0) + v
+            data = [A.get((r_, c_), 0) for c_ in range(ms[1]) for r_ in range(ms[0])]
+            model = f"(from_array_dense 0%Z Z.add zisz {tgen.gdense(ms, data)} {rdcd})"
+        else:
+            model = f"(from_array_coo Z.add zisz (mkCoo {gnlist(ms)} {gnmat(a['rows'])} {gzlist(a['rv'])}) {rdcd})"
+        for x in [o] + o.get("alts", []):
+            if not stm_raw_ok(x) or x["tshape"] != a["req"] or x["rdims"] != a["rd"] or x["cdims"] != a["cd"] or x["shape"] != ms:
+                return "false"
+            e += f" && stm_obs_is {model} {gnmat(x['subs'])} {gzlist(x['vals'])}"
+        return e
     if o.get("kind") != "sparse" or not raw_ok(o):
         return "false"
     if g == "sptendiag":
@@ -1135,6 +1222,18 @@ def check_ext(c, runs):
     if len(kinds) != 1 or not all(raw_ok(r) for r in runs):
         return "false"
     kind = kinds.pop()
+    if a.get("huge"):
+        # linear-time checkers (Model/C06W4.v); the quadratic model ties are kept only where they stay affordable (extract)
+        if kind == "scalar":
+            return f"all_same_scalar {gqs(runs)}"
+        if kind == "sparse":
+            return f"all_same_sorted {glist([gsp_sorted(r) for r in runs])}"
+        if kind in ("dense", "array"):
+            return "all_same_dense " + glist([tgen.gdense(r["shape"], r["data"]) for r in runs]) + (kernel_tie(c, runs[0]) if c.op == "extract" else "")
+        if kind == "assoc":
+            srt = [sorted(zip([list(k) for k in r["keys"]], r["vals"]), key=lambda e: e[0]) for r in runs]
+            return "all_same_assoc_sorted " + glist(["(combine " + gnmat([e[0] for e in x]) + " " + gzlist([e[1] for e in x]) + ")" for x in srt])
+        return "false"
     if kind == "scalar":
         e = f"all_same_scalar {gqs(runs)}"
         if c.op == "innerprod":
@@ -1146,6 +1245,9 @@ def check_ext(c, runs):
             else:
                 B = f"(zden_k {gktensor(a)})"
             e += f" && scalar_is {gqs(runs[:1])} (zinner {gnlist(a['shape'])} (zden_sp {A}) {B})"
+            if a["rk"] == "ktensor":
+                # wave 4: the model C06_ops_innerprod_kruskal is about (per component a ttv over all modes, weighted sum)
+                e += f" && scalar_is {gqs(runs[:1])} (impl_innerprod_sp_k 0%Z 1%Z Z.add Z.mul {A} {gktensor(a)})"
         if c.op == "norm":
             e += f" && norm_sq_is {gqs(runs[:1])} {gz(sum(v * v for v in a['vals']))}"
         return e + kernel_tie(c, runs[0])
@@ -1280,7 +1382,17 @@ def oracle_gen(a, o):
         ms = stm_mshape(a["req"], a["rd"], a["cd"])
         if o.get("kind") == "sptenmat" and (o["tshape"] != a["req"] or o["rdims"] != a["rd"] or o["cdims"] != a["cd"] or o["shape"] != ms):
             return f"{g}: wrong tshape / rdims / cdims / shape: {o}"
-        return oracle_stm_obs(o, ms, aggregate(a["rows"], a["rv"]), g + ": ")
+        p = oracle_stm_obs(o, ms, aggregate(a["rows"], a["rv"]), g + ": ")
+        if p:
+            return p
+        for k, x in enumerate(o.get("alts", [])):
+            where = f"{g}, input triples in the order {a['perms'][k + 1]}: "
+            if "exc" in x:
+                return where + f"raises {x['exc']}: {x.get('msg')} (the first order is accepted)"
+            p = oracle_stm_obs(x, ms, aggregate(a["rows"], a["rv"]), where)
+            if p:
+                return p
+        return None
     if o.get("kind") != "sparse":
         return f"{g} returns {o.get('kind')}"
     shp = diag_shape(a) if g == "sptendiag" else a["req"]
